@@ -173,6 +173,10 @@ REWRITES = {
     "eprintln_disp": (r"\beprintln!\(\s*\"[^\"{}]*\{(\w+)\}[^\"{}]*\"\s*\)", r"vproc::eprintln_disp(&\1)", "eprintln!(\"..{e}..\") writes a line holding Display of e to standard error"),
     "println_disp": (r"\bprintln!\(\s*\"[^\"{}]*\{(\w+)\}[^\"{}]*\"\s*\)", r"vproc::println_disp(&\1)", "println!(\"..{e}..\") writes a line holding Display of e to standard output"),
     "process_exit": (r"\bstd::process::exit\(", r"vproc::exit(", "std::process::exit(code) ends the process with status code mod 256 and does not return"),
+    "trim_into": (r"let name = name\.trim\(\)\.into\(\);", r"let name = trimmed_string(&name);", "`name.trim().into()` where a String is expected is the String holding str::trim of the text"),
+    "njv_call": (r"\breader\.next_json_value\(\)", r"next_json_value_of(reader)", "reader.next_json_value() is the trait method JsonParser::next_json_value of Reader<R> (contract: unit LEX); called through a free function because the verifier rejects a second trait with the reader's contract in this unit"),
+    "starts_with_char": (r"\b(\w+)\.starts_with\('([ -~])'\)", r"vs2::starts_with_char(&\1, '\2')", "s.starts_with('c') for an ASCII c: the first byte of the text is c"),
+    "skip_first": (r"\b(\w+)\[1\.\.\]\.to_string\(\)", r"vs2::skip_first_byte(&\1)", "s[1..].to_string() behind a one-byte first character: the text without its first byte (precondition: the first byte is ASCII, i.e. 1 is a character boundary)"),
     "pub_crate": (r"\bpub\(crate\)\s+", r"pub ", "visibility is irrelevant in a single file"),
     "deref_clone": (
         r"(\w+)\.deref\(\)\.clone\(\)", r"vrc::deref_clone(&\1)", "Rc<T>::deref().clone() clones the pointee"),
